@@ -72,10 +72,43 @@ def install(nmfu):
     wrap(nmfu.DFState, "transition", mk_transition)
 
     # ---------------- DFA.append_after (C01 sequencing, C09 join-time unambiguity) ----------------
+    def check_only_call(orig, self, chained_dfa, sub_states):
+        """append_after(check_only=True): nothing is joined, only the ambiguity test is made.  Contract: a normal return => no byte on
+        which a sub-state continues and the second part (through its condition points, if it begins with any) starts elsewhere;
+        and no state of either machine is modified (frame)."""
+        subs = list(self.accepting_states if sub_states is None else sub_states)
+        A_beh = {id(q): {s: beh(t) for s, t in table(nmfu, q).items()} for q in subs if not isinstance(q, nmfu.DFProxyState)}
+        front = [{s: beh(t) for s, t in table(nmfu, f).items()} for f in _frontier(nmfu, chained_dfa.starting_state)]
+        frame = {id(q): sig_state(q) for q in list(self.states) + list(chained_dfa.states)}
+        REC.enabled = False
+        try:
+            r = orig(self, chained_dfa, sub_states, check_only=True)
+        finally:
+            REC.enabled = True
+        for qid, tab_ in A_beh.items():
+            for s in SY:
+                a = tab_[s]
+                if a is None or a[2]:
+                    continue
+                for fb in front:
+                    b = fb[s]
+                    if b is not None and not b[2] and b[0] != a[0]:
+                        REC.fail("DFA.append_after/C09-no-conflict", f"check-only join passed although on {symname(s)} the first part continues AND the second part starts: ambiguous program accepted silently",
+                                 {"symbol": symname(s)})
+                        return r
+        for q in list(self.states) + list(chained_dfa.states):
+            if id(q) in frame and sig_state(q) != frame[id(q)]:
+                REC.fail("DFA.append_after/C01-frame", "a check-only join modified a state")
+                return r
+        REC.ok("DFA.append_after", 257 * max(1, len(A_beh)))
+        return r
+
     def mk_append_after(orig):
-        def append_after(self, chained_dfa, sub_states=None, mark_accept=True, chain_actions=None):
-            if not REC.enabled:
-                return orig(self, chained_dfa, sub_states, mark_accept, chain_actions)
+        def append_after(self, chained_dfa, sub_states=None, mark_accept=True, chain_actions=None, check_only=False, **more):
+            if not REC.enabled or more:
+                return orig(self, chained_dfa, sub_states, mark_accept, chain_actions, check_only=check_only, **more)
+            if check_only:
+                return check_only_call(orig, self, chained_dfa, sub_states)
             subs = list(self.accepting_states if sub_states is None else sub_states)
             chain = list(chain_actions or [])
             A_tabs = {id(q): table(nmfu, q) for q in subs}
@@ -307,6 +340,10 @@ def install(nmfu):
                     accs = list(d.accepting_states)
                     # the reroute of break transitions happens after this point; accept->accept edges are judged on the final body
                     info["dfa"] = d
+                    # pre-state for the repeat-or-continue clause: what each accepting state of the body does per symbol, and what the
+                    # states the body can begin in do (computed here, before the loop joins the body to itself)
+                    info["acc_beh"] = {id(q): {s_: beh(t_) for s_, t_ in table(nmfu, q).items()} for q in accs if not isinstance(q, nmfu.DFProxyState)}
+                    info["start_beh"] = [{s_: beh(t_) for s_, t_ in table(nmfu, f).items()} for f in _frontier(nmfu, d.starting_state)]
                     return d
                 child.convert = spy
             try:
@@ -318,6 +355,19 @@ def install(nmfu):
                     except AttributeError:
                         pass
             d = info.get("dfa")
+            if d is not None and "acc_beh" in info:
+                for qid, tab_ in info["acc_beh"].items():
+                    for s in SY:
+                        a = tab_[s]
+                        if a is None or a[2]:
+                            continue
+                        for fb in info["start_beh"]:
+                            b = fb[s]
+                            if b is not None and not b[2] and b[0] != a[0]:
+                                REC.fail("LoopNode.convert/C09-repeat-or-continue", f"loop accepted although on {symname(s)} an accepting state of the body continues AND the next iteration begins "
+                                         "(different targets): ambiguous program accepted silently", {"symbol": symname(s)})
+                                return r
+                REC.ok("LoopNode.convert", 257)
             if d is not None:
                 accs = set(id(x) for x in d.accepting_states)
                 for a in d.accepting_states:
